@@ -6,6 +6,7 @@ Nothing in here imports falcon.  A *form* is plain data:
     {'boundary': str, 'quote_boundary': bool,
      'preamble': None | bytes,     # None: the body starts with the dash-boundary; b'': CRLF first
      'tail': None | bytes,         # None: nothing after the close delimiter; bytes: CRLF + epilogue
+     'tail_pad': int (optional)    # that many b'z' appended to the epilogue (big-body cases)
      'parts': [part, ...]}
 
     part = {'name': str, 'name_quoted': bool,
@@ -134,6 +135,8 @@ def encode(form):
     out += b'--'
     close_end = len(out)
     tail = form.get('tail')
+    if form.get('tail_pad'):
+        tail = (tail or b'') + b'z' * form['tail_pad']
     if tail is not None:
         out += CRLF + tail
     return bytes(out), {'first_dash': first_dash, 'parts': parts, 'close_end': close_end}
@@ -225,7 +228,7 @@ FILE_ATOMS = ['a', 'test', '.txt', '.', '..', '/', '-', '_', ' ', 'Ångström', 
               'passwd', '𝟏', 'ﬁ', '"', 'COM1', '~', '*']
 LATIN_FILE_ATOMS = ['a', 'test', '.txt', '.', '/', '-', ' ', 'Ångström', 'é', 'ü', ';', "'", '%41', '~', '"', '\xa0', 'ÿ']
 CTYPES = [None, None, ['text/plain', None], ['text/plain', 'utf-8'], ['text/plain', 'iso-8859-1'], ['text/plain', 'ascii'],
-          ['application/json', None], ['application/octet-stream', None], ['image/png', None],
+          ['application/json', None], ['application/json', None], ['application/octet-stream', None], ['image/png', None],
           ['text/html', 'utf-8'], ['text/plain', 'x-no-such-charset']]
 EXTRAS = [['X-Custom', 'v'], ['Content-Length', '3'], ['Content-Transfer-Encoding', 'binary'], ['X-Empty', ''],
           ['Content-Id', '<a@b>'], ['X-Long', 'l' * 40]]
@@ -279,12 +282,12 @@ def parts(draw, form, max_pieces=10):
         p['filename'] = ''.join(draw(st.lists(st.sampled_from(LATIN_FILE_ATOMS), min_size=1, max_size=3)))
         p['fn_style'] = draw(st.sampled_from(['ext', 'both']))
         p['fn_charset'] = draw(st.sampled_from(['iso-8859-1', 'ISO-8859-1', 'latin-1', 'windows-1252']))
-        p['fn_lang'] = draw(st.sampled_from(['', '', 'en', 'de']))
+        p['fn_lang'] = draw(st.sampled_from(['', '', 'en', 'de', 'en-US']))
     else:
         p['filename'] = ''.join(draw(st.lists(st.sampled_from(FILE_ATOMS), min_size=1, max_size=3)))
         p['fn_style'] = {'plain': 'plain', 'ext': 'ext', 'both': 'both'}[kind]
         p['fn_charset'] = draw(st.sampled_from(['UTF-8', 'utf-8']))
-        p['fn_lang'] = draw(st.sampled_from(['', '', 'en', 'de']))
+        p['fn_lang'] = draw(st.sampled_from(['', '', 'en', 'de', 'en-US']))
     p['ctype'] = draw(st.sampled_from(CTYPES))
     ex = draw(st.sampled_from([0, 0, 0, 1, 2]))
     p['extra'] = [draw(st.sampled_from(EXTRAS)) for _ in range(ex)]
@@ -385,20 +388,31 @@ def big_cases(draw):
         form['parts'] = [draw(parts(form, 6))]
     body, layout = encode(form)
     i = draw(st.integers(0, len(form['parts']) - 1))
-    edge = draw(st.sampled_from([8192, 8192, 16384, 32768, 32768, 32768, 65536]))
+    # the async reader joins events until it holds >= 8192 bytes: its chunk edges are multiples of `step`
+    ev = draw(st.sampled_from([8192, 4096, 2048, 1024, 512, 8192, 4096, 16384, 1000, 64, 3000]))
+    step = -(-8192 // ev) * ev
+    edge = draw(st.sampled_from([step, step, 2 * step, 32768, 32768, 32768, 4 * step, 65536]))
     dlen = len(delimiter(form))
-    off = draw(st.integers(-dlen - 2, 4))
+    # the edge falls somewhere inside the hostile tail of the content or inside the delimiter that follows it
+    off = draw(st.integers(-dlen - 2, min(len(form['parts'][i]['content']), 40) + 2))
     ce = layout['parts'][i]['content'][1]
     pad = edge + off - ce
     while pad < 0:
         pad += 8192
     form['parts'][i]['pad'] = pad
     form['parts'][i]['content'] = sanitize_content(form['parts'][i]['content'], form)
+    # the sync reader only checks a chunk edge for a straddling delimiter when the following chunk is not the
+    # last one, i.e. when at least another 32 KiB follow
+    more = draw(st.sampled_from(['none', 'none', 'epilogue', 'last_part']))
+    if more == 'epilogue':
+        form['tail_pad'] = 40000
+    elif more == 'last_part' and i < len(form['parts']) - 1:
+        form['parts'][-1]['pad'] = 40000
     return {'form': form,
             'patterns': [draw(pattern_for(p)) for p in form['parts']],
             'transport': {
                 'short': draw(st.lists(st.sampled_from([0, 0, 1000, 4096, 8192, 32768, 5000]), min_size=1, max_size=3)),
-                'events': [draw(st.sampled_from([8192, 4096, 2048, 1024, 512, 8192, 4096, 16384, 1000, 64]))],
+                'events': [ev],
                 'preload': draw(st.booleans()),
                 'asgi_cl': draw(st.booleans()),
             }}
@@ -426,10 +440,19 @@ EDIT_BYTES = [0x0d, 0x0a, 0x2d, 0x22, 0x3b, 0x3a, 0x20, 0x3d, 0xff, 0x00, 0x61, 
 @st.composite
 def corrupt_cases(draw):
     form = draw(forms(max_parts=3, max_pieces=5))
-    body, _ = encode(form)
+    body, layout = encode(form)
     kind = draw(st.sampled_from(['rep', 'rep', 'del', 'ins', 'ins', 'trunc']))
     hi = len(body) if kind in ('ins', 'trunc') else max(0, len(body) - 1)
-    pos = draw(st.integers(0, hi))
+    region = draw(st.sampled_from(['any', 'any', 'content', 'content', 'delimiter']))
+    if region != 'any' and layout['parts']:
+        cs, ce = layout['parts'][draw(st.integers(0, len(layout['parts']) - 1))]['content']
+        if region == 'content':
+            pos = draw(st.integers(cs, ce))
+        else:
+            pos = ce + draw(st.integers(-2, len(delimiter(form)) + 3))
+        pos = max(0, min(pos, hi))
+    else:
+        pos = draw(st.integers(0, hi))
     byte = draw(st.one_of(st.sampled_from(EDIT_BYTES), st.sampled_from(sorted(set(form['boundary'].encode('ascii')))),
                           st.integers(0, 255)))
     return {'form': form, 'edit': [kind, pos, byte],
